@@ -42,7 +42,14 @@ def clear(res_name, row, i, e, field):
 
 def wrap_handler(on_error):
     assert callable(on_error)
-    if len(list(signature(on_error).parameters)) > 4:
+    # a handler that takes the field as a fifth positional argument (keyword-only and
+    # **kwargs parameters are not positions)
+    positional = [
+        p for p in signature(on_error).parameters.values()
+        if p.kind in (p.POSITIONAL_ONLY, p.POSITIONAL_OR_KEYWORD)
+    ]
+    var_positional = any(p.kind == p.VAR_POSITIONAL for p in signature(on_error).parameters.values())
+    if len(positional) > 4 or var_positional:
         return on_error
 
     def func(res_name, row, i, e, _):
